@@ -36,6 +36,12 @@ REQUIRED_READS = [
     ("latest_execution_payload_header", "raw"),
 ]
 
+# presets the histories run under: the published minimal preset and the two custom presets of Schemas.tla whose vector
+# lengths are NOT powers of two (tiny_a: roots 5, mixes 6, slashings 3, sync committee 12; tiny_b: 9, 17, 5, 36), with the
+# share of the tier's behaviours each gets
+STATE_PRESETS = ["minimal", "tiny_a", "tiny_b"]
+PRESET_SHARE = {"minimal": 0.4, "tiny_a": 0.3, "tiny_b": 0.3}
+
 TIERS = {
     "quick": dict(behaviours=150, steps=10, advance=2, nvals=3, mc_steps=3, mc_vals=1),
     "thorough": dict(behaviours=1200, steps=12, advance=3, nvals=4, mc_steps=4, mc_vals=1),
@@ -58,7 +64,7 @@ def tla_value(x):
 
 def model_check(cfg):
     mc = ("CONSTANTS\n  HandleSeq <- TwoHandles\n  Fields <- TinyFields\n  NVals = %d\n  MaxSteps = %d\n  MaxAdvance = 1\n"
-          "INIT Init\nNEXT Next\nINVARIANT TypeOK\nPROPERTIES FrameProperty CopyProperty StoreProperty\nCHECK_DEADLOCK FALSE\n"
+          "INIT Init\nNEXT Next\nINVARIANT TypeOK\nPROPERTIES FrameProperty CopyProperty StoreProperty RotateProperty\nCHECK_DEADLOCK FALSE\n"
           % (cfg["mc_vals"], cfg["mc_steps"]))
     wd = lib.fresh_spec_copy({"SSMC.cfg": mc})
     res = lib.tlc("StateStoreMC", cfg="SSMC.cfg", workdir=wd, workers=max(2, lib.NCPU // 2), timeout=1200, heap="8g")
@@ -85,7 +91,8 @@ def parse_behaviours(out):
 
 
 def run_fork(job):
-    fork, schemas, binary, cfg, seed = job
+    fork, schemas, binary, cfg, seed = job[:5]
+    preset = job[5] if len(job) > 5 else "minimal"
     p = lib.run([binary, "caps", "-fork", fork, "-schemas", schemas], env=lib.GO_ENV, timeout=300)
     if p.returncode != 0:
         raise lib.InfraError("statestore caps %s failed: %s" % (fork, p.stderr[-3000:]))
@@ -96,7 +103,8 @@ def run_fork(job):
               "INIT SimInit\nNEXT SimNext\nCHECK_DEADLOCK FALSE\n" % (cfg["nvals"], cfg["steps"], cfg["advance"]))
     wd = lib.fresh_spec_copy({"StateStoreFields.tla": mod, "Sim.cfg": simcfg})
     res = lib.tlc("StateStoreSim", cfg="Sim.cfg", workdir=wd, workers=1, timeout=1500, heap="4g",
-                  simulate="num=%d" % cfg["behaviours"], depth=2 * cfg["steps"] + 3, seed=seed * 31 + FORKS.index(fork))
+                  simulate="num=%d" % cfg["behaviours"], depth=2 * cfg["steps"] + 3,
+                  seed=seed * 31 + FORKS.index(fork) + 7 * STATE_PRESETS.index(preset))
     if res.errors or res.rc != 0:
         raise lib.InfraError("StateStore simulation for %s failed:\n%s" % (fork, res.out[-3000:]))
     behs = parse_behaviours(res.out)
@@ -112,8 +120,14 @@ def run_fork(job):
         raise lib.InfraError("statestore replay %s failed: %s %s" % (fork, p.stdout[-1000:], p.stderr[-4000:]))
     m = re.search(r"The number of states generated: (\d+)", res.out)
     gen = int(m.group(1)) if m else 0
-    return {"fork": fork, "fields": public, "behaviours": behs, "reports": lib.read_ndjson(rpath), "generated": gen,
-            "tlc_wall": res.wall}
+    methods = {}
+    if preset == "minimal":
+        p = lib.run([binary, "methods", "-fork", fork, "-schemas", schemas], env=lib.GO_ENV, timeout=300)
+        if p.returncode != 0:
+            raise lib.InfraError("statestore methods %s failed: %s" % (fork, p.stderr[-2000:]))
+        methods = json.loads(p.stdout.splitlines()[0])
+    return {"fork": fork, "preset": preset, "fields": public, "behaviours": behs, "reports": lib.read_ndjson(rpath),
+            "generated": gen, "tlc_wall": res.wall, "methods": methods}
 
 
 def match_finding(entries, pid, fork, dev):
@@ -133,6 +147,14 @@ def match_finding(entries, pid, fork, dev):
             continue
         if m.get("detail") and not re.search(m["detail"], dev.get("detail", "")):
             continue
+        if m.get("detail_check") == "uint8_append_byte_clear":
+            # element 4k of the list lost exactly one of its bytes 1..3
+            mm = re.search(r'\[(\d+)\]: expected "(\d+)", state has "(\d+)"', dev.get("detail", ""))
+            if not mm:
+                continue
+            idx, exp, got = int(mm.group(1)), int(mm.group(2)), int(mm.group(3))
+            if idx % 4 != 0 or not any(got == exp & ~(0xFF << (8 * b)) and got != exp for b in (1, 2, 3)):
+                continue
         return e
     return None
 
@@ -143,34 +165,55 @@ def run(tier, seed):
     t0 = time.time()
     binary = lib.build_harness("statestore")
     schemas_dir, exp_res = ssz.export_schemas()
-    schemas = os.path.join(schemas_dir, "schemas_minimal.json")
     mc = model_check(cfg)
-    outs = lib.parallel_map(run_fork, [(f, schemas, binary, cfg, seed) for f in FORKS], workers=len(FORKS))
+    jobs = []
+    for f in FORKS:
+        for preset in STATE_PRESETS:
+            c = dict(cfg)
+            c["behaviours"] = max(4, int(cfg["behaviours"] * PRESET_SHARE[preset]))
+            jobs.append((f, os.path.join(schemas_dir, "schemas_%s.json" % preset), binary, c, seed, preset))
+    outs = lib.parallel_map(run_fork, jobs, workers=ssz.TLC_SLOTS)
     cov = {"states": mc.distinct + exp_res.distinct, "transitions": mc.generated + exp_res.generated,
            "mc_exhaustive": {"distinct": mc.distinct, "generated": mc.generated, "depth": mc.depth,
-                             "constants": "2 handles, 3 fields (scalar, vector[2], list<=2), NVals=%d, MaxSteps=%d" % (
+                             "constants": "2 handles, 4 fields (2 scalars, vector[2], list<=2), NVals=%d, MaxSteps=%d" % (
                                  cfg["mc_vals"], cfg["mc_steps"])},
-           "behaviours_replayed": 0, "steps_replayed": 0, "per_fork": {}, "samples": [], "distinct": 0}
+           "behaviours_replayed": 0, "steps_replayed": 0, "per_fork": {}, "samples": [], "distinct": 0,
+           "presets": STATE_PRESETS, "state_methods": {}}
     devs = []
     distinct = set()
     field_ops = {}
     read_cov = {}
     fork_stats = {}
+    nbeh = {}
     for o in outs:
         cov["transitions"] += o["generated"]
-        st = {}
-        nb = 0
+        fork = o["fork"]
+        st = fork_stats.setdefault(fork, {})
         for r in o["reports"]:
             if r.get("summary"):
-                st = r["stats"]
+                for k, v in r["stats"].items():
+                    st[k] = st.get(k, 0) + v
+                    if o["preset"] != "minimal":
+                        st["oddpreset|" + k] = st.get("oddpreset|" + k, 0) + v
                 continue
-            nb += 1
+            nbeh[fork] = nbeh.get(fork, 0) + 1
             cov["steps_replayed"] += r["steps"]
-            distinct.add(r["hash"])
+            distinct.add(r["hash"] + o["preset"])
             for d in (r.get("devs") or []):
-                devs.append({"prop": d["prop"], "fork": o["fork"], "dev": d,
+                devs.append({"prop": d["prop"], "fork": fork, "preset": o["preset"], "dev": d,
                              "behaviour": o["behaviours"][r["behaviour"] - 1]})
-        cov["behaviours_replayed"] += nb
+        if o["methods"]:
+            cov["state_methods"][fork] = o["methods"]
+        if o["preset"] == "minimal":
+            field_ops[fork] = [o["fields"], None]
+        if o["behaviours"] and len(cov["samples"]) < 3 and o["preset"] != "minimal":
+            b = json.loads(o["behaviours"][0])
+            cov["samples"].append({"fork": fork, "preset": o["preset"],
+                                   "ops": [[s["op"], s["h"], s["f"], s["i"], s["v"], s["h2"]] for s in b]})
+    for fork in FORKS:
+        st = fork_stats[fork]
+        fields = field_ops[fork][0]
+        cov["behaviours_replayed"] += nbeh.get(fork, 0)
         ops = {k[3:]: v for k, v in st.items() if k.startswith("op_")}
         fcov = {}
         for k, v in st.items():
@@ -182,20 +225,20 @@ def run(tier, seed):
             if k.startswith("read|"):
                 _, name, form = k.split("|", 2)
                 reads.setdefault(name, {})[form] = v
-        read_cov[o["fork"]] = reads
-        fork_stats[o["fork"]] = st
-        field_ops[o["fork"]] = (o["fields"], fcov)
-        cov["per_fork"][o["fork"]] = {
-            "behaviours": nb, "ops": ops, "fields": len(o["fields"]),
-            "fields_written": sum(1 for f in o["fields"] if fcov.get(f["name"])),
+        read_cov[fork] = reads
+        field_ops[fork] = (fields, fcov)
+        cov["per_fork"][fork] = {
+            "behaviours": nbeh.get(fork, 0), "ops": ops, "fields": len(fields),
+            "fields_written": sum(1 for f in fields if fcov.get(f["name"])),
             "comparisons": st.get("comparisons", 0), "getter_calls": st.get("getter_calls", 0),
             "element_reads": st.get("element_reads", 0), "subview_getters": st.get("subview_getters", 0),
             "root_checks": st.get("root_checks", 0),
+            "vector_length_not_power_of_two": st.get("vector_length_not_power_of_two", 0),
+            "starts": {k: st.get(k, 0) for k in ("start_constructor_built", "start_decoded_from_bytes")},
+            "fill_SeedRandao_on_odd_presets": st.get("oddpreset|op_fill", 0),
+            "rotate_with_distinct_committees": st.get("rotate_with_distinct_committees", 0),
             "advance": {k: st.get(k, 0) for k in ("advance_ok", "advance_errors", "advance_panicked", "advance_refused")},
         }
-        if o["behaviours"] and len(cov["samples"]) < 3:
-            b = json.loads(o["behaviours"][0])
-            cov["samples"].append({"fork": o["fork"], "ops": [[s["op"], s["h"], s["f"], s["i"], s["v"], s["h2"]] for s in b]})
     cov["distinct"] = len(distinct)
     cov["traces_validated_against_impl"] = cov["behaviours_replayed"]
     cov["evaluations"] = cov["steps_replayed"]
@@ -215,6 +258,17 @@ def run(tier, seed):
                 holes.append("%s: action %s never taken" % (fork, op))
         if fork != "electra" and pf["advance"]["advance_ok"] == 0:
             holes.append("%s: no Advance succeeded" % fork)
+        if pf["vector_length_not_power_of_two"] == 0:
+            holes.append("%s: vector_length_not_power_of_two is zero (no root check on a non-power-of-two vector)" % fork)
+        if pf["starts"]["start_constructor_built"] == 0 or pf["starts"]["start_decoded_from_bytes"] == 0:
+            holes.append("%s: start states %s" % (fork, pf["starts"]))
+        if pf["fill_SeedRandao_on_odd_presets"] == 0:
+            holes.append("%s: SeedRandao never driven under a non-power-of-two preset" % fork)
+        if fork != "phase0":
+            if pf["ops"].get("rotate", 0) == 0 or pf["rotate_with_distinct_committees"] == 0:
+                holes.append("%s: RotateSyncCommittee never driven from distinct committees" % fork)
+        if fork == "bellatrix" and read_cov[fork].get("latest_execution_payload_header", {}).get("is_transition_completed", 0) == 0:
+            holes.append("bellatrix: IsTransitionCompleted never compared")
     for fork, (fields, _) in field_ops.items():
         names = {f["name"] for f in fields}
         for name, form in REQUIRED_READS:
@@ -265,8 +319,9 @@ def report(pid, viol, known):
         if key in seen:
             continue
         seen.add(key)
-        name = "statestore_%s_%s_%s_%s.json" % (d["fork"], d["dev"]["class"], d["dev"]["field"] or "state", d["dev"]["op"])
-        path = lib.save_replay(pid, name, {"kind": "statestore-behaviour", "property": pid, "fork": d["fork"],
+        name = "statestore_%s_%s_%s_%s_%s.json" % (d["fork"], d.get("preset", "minimal"), d["dev"]["class"],
+                                                   d["dev"]["field"] or "state", d["dev"]["op"])
+        path = lib.save_replay(pid, name, {"kind": "statestore-behaviour", "property": pid, "fork": d["fork"], "preset": d.get("preset", "minimal"),
                                            "behaviour": json.loads(d["behaviour"]), "deviation": d["dev"]})
         lib.report_violation(pid, path, "%s step %d %s(%s): %s: %s" % (
             d["fork"], d["dev"]["step"], d["dev"]["op"], d["dev"]["field"], d["dev"]["class"], d["dev"]["detail"][:500]))
@@ -285,7 +340,8 @@ def replay(pid, path, seed=None):
     bpath = os.path.join(wd, "b.ndjson")
     open(bpath, "w").write(json.dumps(doc["behaviour"]) + "\n")
     rpath = os.path.join(wd, "r.ndjson")
-    p = lib.run([binary, "replay", "-fork", doc["fork"], "-schemas", os.path.join(schemas_dir, "schemas_minimal.json"),
+    p = lib.run([binary, "replay", "-fork", doc["fork"], "-schemas",
+                 os.path.join(schemas_dir, "schemas_%s.json" % doc.get("preset", "minimal")),
                  "-behaviours", bpath, "-seed", str(seed if seed is not None else lib.seed_from_env()), "-out", rpath],
                 env=lib.GO_ENV, timeout=600)
     if p.returncode != 0:
